@@ -305,8 +305,6 @@ class _ValWorld(World):
         if args[0][1] == S('y') or args[1][1] == S('y'):
           pass
         return sc['y'] != 'invalid'
-      if short in ('isin', 'unique', 'setdiff1d', 'in1d'):
-        raise Undecided('label test through numpy.%s' % short)
     return NotImplemented
 
 
